@@ -35,7 +35,8 @@ THEOREMS = ['C11_inverse_den', 'C11_inverse_complcell_rejects',
             'C11_layout_exists', 'C11_pipeline',
             'C11_parse_psem', 'C11_accepted_iff',
             'C11_nested_rejected', 'C11_colon_hash_rejected',
-            'C11_parse_sound', 'C11_get_ast_sound_partial',
+            'C11_parse_sound', 'C11_lex_sound', 'C11_get_ast_sound',
+            'C11_get_ast_accepts_iff',
             'C11_nested_refuted', 'C11_colon_hash_refuted']
 TRUSTED = [
     'hand-written model coq/C11/Model.v: lexer + pushdown precedence parser '
